@@ -163,6 +163,60 @@ def generate(repo):
             if n not in dict(args):
                 raise Bad('%s: unexpected variable %s' % (cname, n))
         out.append('Definition %s %s : Z :=\n  %s.\n' % (cname, ' '.join('(v_%s : %s)' % (n, COQT[t]) for n, t in args), body))
+    out.append(llc_activate_kernels(find(trees[LLC], 'LogicalLinkController.activate')))
+    return '\n'.join(out)
+
+
+def llc_activate_kernels(fn):
+    """LogicalLinkController.activate: what is announced comes from cfg entries that no activation changes, and the values of
+    the received PAX are ASSIGNED to the cfg entries (a setdefault, a conditional or a swapped field fails here or breaks
+    the bridge lemma)"""
+    out = []
+    # --- announced values: if self.cfg[K] != D: send_pax.F = self.cfg[K]
+    guards = {}
+    for n in fn.body:
+        if isinstance(n, ast.If) and not n.orelse and len(n.body) == 1 and isinstance(n.body[0], ast.Assign):
+            a = n.body[0]
+            tgt = ast.unparse(a.targets[0])
+            if tgt.startswith('send_pax.') and isinstance(n.test, ast.Compare) and len(n.test.ops) == 1 and \
+                    isinstance(n.test.ops[0], ast.NotEq) and isinstance(n.test.comparators[0], ast.Constant):
+                if ast.unparse(n.test.left) != ast.unparse(a.value):
+                    raise Bad('announce %s: tested and announced values differ' % tgt)
+                guards[tgt[9:]] = (ast.unparse(a.value), n.test.comparators[0].value)
+    want = {'miu': "self.cfg['recv-miu']", 'lto': "self.cfg['send-lto']", 'lsc': 'local_lsc'}
+    for f, src in want.items():
+        if f not in guards or guards[f][0] != src:
+            raise Bad('announce %s: source is %r, expected %s' % (f, guards.get(f), src))
+    out.append('Definition gen_announce_guards : Z * Z * Z := (%d, %d, %d).' % (guards['miu'][1], guards['lto'][1], guards['lsc'][1]))
+    v = assigned_value(fn, 'local_lsc')
+    if ast.unparse(v) != "self.cfg.setdefault('local-lsc', self.cfg['send-lsc'])":
+        raise Bad('local_lsc = ' + ast.unparse(v))
+    for n in ast.walk(fn):
+        if isinstance(n, ast.Assign) and ast.unparse(n.targets[0]) in ("self.cfg['recv-miu']", "self.cfg['send-lto']", "self.cfg['local-lsc']",
+                                                                       "self.cfg['llcp-sec']"):
+            raise Bad('activate assigns ' + ast.unparse(n.targets[0]))
+    out.append('Definition gen_announce_lsc (v_local : option Z) (v_send_lsc : Z) : Z :=\n'
+               '  match v_local with Some v => v | None => v_send_lsc end.   (* cfg.setdefault(\'local-lsc\', cfg[\'send-lsc\']) *)')
+    # --- take-over: self.cfg[K] = rcvd_pax.F   (plain assignments, each exactly once, nothing else touches these keys)
+    keys = ['send-miu', 'recv-lto', 'send-wks', 'send-lsc', 'llcp-dpc', 'rcvd-ver']
+    fields = {}
+    for k in keys:
+        v = assigned_value(fn, "self.cfg['%s']" % k)
+        if k == 'llcp-dpc':
+            if not (isinstance(v, ast.IfExp) and ast.unparse(v.test) == "self.cfg['llcp-sec']" and
+                    isinstance(v.orelse, ast.Constant) and v.orelse.value == 0 and ast.unparse(v.body).startswith('rcvd_pax.')):
+                raise Bad("cfg['llcp-dpc'] = " + ast.unparse(v))
+            fields[k] = '(if v_sec then v_%s else 0)' % ast.unparse(v.body)[9:]
+        else:
+            if not (isinstance(v, ast.Attribute) and ast.unparse(v).startswith('rcvd_pax.')):
+                raise Bad("cfg['%s'] = %s" % (k, ast.unparse(v)))
+            fields[k] = 'v_' + v.attr
+    for n in ast.walk(fn):
+        if isinstance(n, ast.Call) and isinstance(n.func, ast.Attribute) and ast.unparse(n.func.value) == 'self.cfg' and \
+                n.func.attr in ('setdefault', 'update', 'pop') and not (n.func.attr == 'setdefault' and ast.unparse(n.args[0]) == "'local-lsc'"):
+            raise Bad('activate calls self.cfg.%s' % n.func.attr)
+    out.append('Definition gen_cfg_assign (v_sec : bool) (v_miu v_lto v_wks v_lsc v_dpc v_version : Z) : bool * Z * Z * Z * Z * Z * Z :=\n'
+               '  (true, %s).\n' % ', '.join(fields[k] for k in keys))
     return '\n'.join(out)
 
 
